@@ -336,27 +336,38 @@ pub fn run_case(case: &PolCase, choose: &mut dyn FnMut(&[usize]) -> usize) -> Po
 const PKEYS: &[&[u8]] = &[b"k", b"j", b"m"];
 
 pub fn gen_case(rng: &mut Rng, id: String) -> PolCase {
+    // three kinds of window: anything; expired items being collected by several clients
+    // at once; several clients overwriting and deleting the same few keys
+    let kind = rng.below(3);
     let limit = *rng.pick(&[100u64, 150, 250, 1000]);
+    let nkeys = if kind == 0 { 3 } else { 1 + rng.below(2) as usize };
     let mut prelude = Vec::new();
-    for _ in 0..rng.below(4) {
-        let k = rng.pick(PKEYS).to_vec();
+    let npre = if kind == 0 { rng.below(4) } else { 1 + rng.below(3) };
+    for _ in 0..npre {
+        let k = PKEYS[rng.below(nkeys as u64) as usize].to_vec();
         let n = rng.below(60) as usize;
         let v: Vec<u8> = if rng.chance(1, 4) { b"7".to_vec() } else { vec![b'p'; n] };
-        prelude.push(COp::Set(k, v, rng.below(4) as u32, *rng.pick(&[0u32, 0, 2]), 0));
+        let ttl = if kind == 1 { 2 } else { *rng.pick(&[0u32, 0, 2]) };
+        prelude.push(COp::Set(k, v, rng.below(4) as u32, ttl, 0));
     }
-    let tick = *rng.pick(&[0u64, 0, 1, 5]);
+    let tick = if kind == 1 { 5 } else { *rng.pick(&[0u64, 0, 1, 5]) };
     let nthreads = 2 + rng.below(2) as usize;
     let mut threads = Vec::new();
     for _ in 0..nthreads {
         let nops = 1 + rng.below(3) as usize;
         let mut ops = Vec::new();
         for _ in 0..nops {
-            let key = rng.pick(PKEYS).to_vec();
+            let key = PKEYS[rng.below(nkeys as u64) as usize].to_vec();
             let n = rng.below(120) as usize;
             let val: Vec<u8> = if rng.chance(1, 5) { b"41".to_vec() } else { vec![b'a' + rng.below(20) as u8; n] };
             let ttl = *rng.pick(&[0u32, 0, 3]);
             let cas = if rng.chance(1, 5) { 1 + rng.below(4) } else { 0 };
-            ops.push(match rng.below(12) {
+            let r = match kind {
+                1 => *rng.pick(&[4u64, 4, 4, 5, 8, 9, 10, 11, 0, 6]),
+                2 => *rng.pick(&[0u64, 0, 0, 1, 2, 6, 6, 7, 4, 8]),
+                _ => rng.below(12),
+            };
+            ops.push(match r {
                 0 | 1 | 2 | 3 => COp::Set(key, val, rng.below(4) as u32, ttl, cas),
                 4 | 5 => COp::Get(key),
                 6 => COp::Del(key, cas),
